@@ -672,12 +672,16 @@ func (obj *SparseInt32Matrix) JointIterator(b ConstMatrix) MatrixJointIterator {
   return obj.JOINT_ITERATOR(b)
 }
 func (obj *SparseInt32Matrix) ITERATOR() *SparseInt32MatrixIterator {
-  r := SparseInt32MatrixIterator{*obj.values.ITERATOR(), obj}
+  // start at the first element of the (possibly sliced) matrix
+  k := obj.rowOffset*obj.colMax + obj.colOffset
+  r := SparseInt32MatrixIterator{*obj.values.ITERATOR_FROM(k), obj}
+  r.clip()
   return &r
 }
 func (obj *SparseInt32Matrix) ITERATOR_FROM(i, j int) *SparseInt32MatrixIterator {
   k := obj.index(i, j)
   r := SparseInt32MatrixIterator{*obj.values.ITERATOR_FROM(k), obj}
+  r.clip()
   return &r
 }
 func (obj *SparseInt32Matrix) JOINT_ITERATOR(b ConstMatrix) *SparseInt32MatrixJointIterator {
@@ -698,6 +702,28 @@ type SparseInt32MatrixIterator struct {
 }
 func (obj *SparseInt32MatrixIterator) Index() (int, int) {
   return obj.m.ij(obj.SparseInt32VectorIterator.Index())
+}
+func (obj *SparseInt32MatrixIterator) Ok() bool {
+  if !obj.SparseInt32VectorIterator.Ok() {
+    return false
+  }
+  // stop after the last row of a sliced matrix
+  i, _ := obj.Index()
+  return i < obj.m.rows
+}
+func (obj *SparseInt32MatrixIterator) Next() {
+  obj.SparseInt32VectorIterator.Next()
+  obj.clip()
+}
+// skip entries of the storage that are not within the columns of a
+// sliced matrix
+func (obj *SparseInt32MatrixIterator) clip() {
+  for obj.Ok() {
+    if _, j := obj.Index(); j >= 0 && j < obj.m.cols {
+      break
+    }
+    obj.SparseInt32VectorIterator.Next()
+  }
 }
 func (obj *SparseInt32MatrixIterator) Clone() *SparseInt32MatrixIterator {
   return &SparseInt32MatrixIterator{*obj.SparseInt32VectorIterator.Clone(), obj.m}
